@@ -12,6 +12,10 @@ PROPERTY_FILE = "Properties/C17.v"
 TIE = "Tie.C17"
 DRIVER = "c17_driver.py"
 SHARD = 400
+# runner.py evaluates model_out with one serial coqc per disagreeing case (uncapped): a mutant that
+# changes the message of thousands of grid cases would take hours.  Tie.C17.model_out exists for
+# manual use (`Eval vm_compute in (model_out c)`); the replay file carries case + observation.
+HAS_MODEL_OUT = False
 THEOREMS = [
     "C17_incompat_none_iff_all_shapes_bind", "C17_admits_iff_binds", "C17_self_stripped_binds",
     "C17_bounded_shapes_suffice", "C17_verify_success_iff", "C17_errors_reported_exactly",
